@@ -273,6 +273,12 @@ def iter_seq(E, t):
         return _elements(E, a[0], False)
     if name in ("alloc::vec::Vec::new", "alloc::vec::Vec::with_capacity"):
         return []
+    if last == "from" and len(a) == 1 and "From<" in key and "alloc::vec::Vec<" in key.split(" for ", 1)[-1]:
+        # Vec::from([..; N]) / Vec::from(&[..]) / Vec::from(&mut [..]): the elements of the source in order
+        src = strip_view(a[0])
+        if isinstance(src, tuple) and src and src[0] == "ref":
+            return _elements(E, src[1], False)
+        return _elements(E, src, False)
     raise Unrec("call %s" % name[:100])
 
 
